@@ -148,6 +148,51 @@ fn run_generated(b: &mut MessageBuilder, op: usize) -> Option<usize> {
     b.build_generated_message(&mut vg, number).ok().map(|f| f.len())
 }
 
+/// The same history on a builder that is never replaced (one per worker, alive for the
+/// whole run: hundreds of thousands of calls), so that anything depending on the *number* of
+/// earlier calls gets its chance.
+fn run_history_soak(ctx: &mut Ctx, soak: &mut MessageBuilder, calls: &mut u64, pool: &[Entry], hist: &[usize], target: usize) {
+    ctx.eval();
+    let t = &pool[target];
+    let r = guard(|| {
+        for &i in hist {
+            if i >= GEN_BASE {
+                let _ = run_generated(soak, i);
+            } else {
+                let _ = soak.build_message(&pool[i].msg).map(|x| x.len());
+            }
+        }
+        match soak.build_message(&t.msg) {
+            Ok(f) => Ok(f.to_vec()),
+            Err(e) => Err(format!("{:?}", e)),
+        }
+    });
+    *calls += hist.len() as u64 + 1;
+    match r {
+        Err(_) => {
+            *soak = MessageBuilder::new();
+            ctx.count("encode_panics_left_to_C09");
+        }
+        Ok(got) => {
+            if got != t.fresh {
+                let n_calls = *calls;
+                ctx.violation_lazy("C12.history_independent|long_lived_builder".into(), "C12.history_independent", || {
+                    (
+                        format!(
+                            "a builder that has served {} calls builds message {:?} to {} but a fresh builder gives {}",
+                            n_calls,
+                            t.msg.number(),
+                            got.as_ref().map(|f| hex_short(f)).unwrap_or_else(|e| e.clone()),
+                            t.fresh.as_ref().map(|f| hex_short(f)).unwrap_or_else(|e| e.clone())
+                        ),
+                        json!({"kind":"long_lived_builder","calls_before": n_calls, "note": "replay needs the whole call sequence of the worker; re-run the check with the same seed"}),
+                    )
+                });
+            }
+        }
+    }
+}
+
 fn run_history(ctx: &mut Ctx, pool: &[Entry], hist: &[usize], target: usize) {
     ctx.eval();
     let t = &pool[target];
@@ -256,6 +301,8 @@ pub fn run(p: &Params) -> Outcome {
         ctx.count_n("pool_size_total", pool.len() as u64);
         let long: Vec<usize> = (0..pool.len()).filter(|&i| pool[i].fresh.as_ref().map(|f| f.len() > 400).unwrap_or(false)).collect();
         let failing: Vec<usize> = (0..pool.len()).filter(|&i| pool[i].fresh.is_err()).collect();
+        let mut soak = MessageBuilder::new();
+        let mut soak_calls: u64 = 0;
         for i in 0..per {
             let len = match rng.below(6) {
                 0 => 1,
@@ -277,6 +324,7 @@ pub fn run(p: &Params) -> Outcome {
                 break;
             }
             run_history(ctx, &pool, &hist, target);
+            run_history_soak(ctx, &mut soak, &mut soak_calls, &pool, &hist, target);
             if i % 64 == 0 {
                 // every pool entry right after the longest all-ones build
                 if let Some(&l) = long.first() {
@@ -284,7 +332,10 @@ pub fn run(p: &Params) -> Outcome {
                 }
             }
         }
+        ctx.max("calls_on_the_longest_lived_builder", soak_calls as f64);
+        ctx.count_n("calls_on_long_lived_builders", soak_calls);
     });
+    total.max("calls_on_the_longest_lived_builder", 0.0);
     for k in ["pool_late_failing_biased_field", "pool_decoded_from_all_ones_max_payload", "histories_where_stale_bits_would_be_visible", "histories_with_failed_predecessor", "pool_entries_that_fail_to_build"] {
         if total.get(k) == 0 {
             total.inconclusive(format!("{} never observed", k));
